@@ -818,6 +818,15 @@ func (in *instr) rewriteCall(c *astutil.Cursor, call *ast.CallExpr) {
 			}
 		}
 		return
+	case "runtime.SetFinalizer":
+		if in.full {
+			site := in.site("gc", call.Pos(), "SetFinalizer")
+			in.rep.SyncSites = append(in.rep.SyncSites, site)
+			call.Fun = &ast.SelectorExpr{X: ast.NewIdent("simrt"), Sel: ast.NewIdent("SetFinalizer")}
+			call.Args = append(call.Args, strLit(site))
+			in.changed = true
+		}
+		return
 	case "sync.OnceFunc", "sync.OnceValue", "sync.OnceValues":
 		if in.full {
 			site := in.site("sync", call.Pos(), fn.Name())
